@@ -41,6 +41,24 @@ CLAIMED = {
              "covered by the differential comparison of start/length/byte order).",
         technique="Lean 4 proof (layout tiling => DBC geometry, decode-pack identity) + differential check through an independent DBC reader",
         ref="DESIGN.md section 8, C05"),
+    "C10": dict(
+        text="Lean theorems about the model of GeneratorManager.generate as an effect on an abstract file system: verdict error => directory "
+             "unchanged and the error returned (gate_reject); verdict ok => success, every returned path holds exactly the returned contents and every "
+             "other path is as the plug-in left it (gate_accept, with the C plug-in's *.c/*.h clearing modelled). The model is small; the assurance "
+             "rests mainly on the tie: real command vs model over schemas violating each general/plug-in rule at any position x {dbc, can_c, cpp, nop} "
+             "x pre-existing directory contents, with before/after snapshots.",
+        note="Partial by nature: the verifier's verdict and the plug-in's file list are taken from separate real calls; OS file-system semantics "
+             "are trusted.",
+        technique="Lean 4 proof (gating logic over an abstract FS) + snapshot-based correspondence check",
+        ref="DESIGN.md section 8, C10"),
+    "C17": dict(
+        text="Partial. Lean theorems: the {path: contents} map and the resulting directory do not depend on the order in which a generator emits its "
+             "files (Perm + Nodup paths). That each generator is a function of the schema alone is exercised by the harness: fresh subprocesses under "
+             "several PYTHONHASHSEED values and a long-lived process that generates other schemas first and then the schema twice from one object, "
+             "comparing file maps modulo the documented stamp line.",
+        note="Hash randomisation, dict/set ordering and hidden process state are CPython behaviour the model carries only as a permutation.",
+        technique="Lean 4 proof (order-independence of the output map) + multi-process / hash-seed / history correspondence",
+        ref="DESIGN.md section 8, C17"),
     "C14": dict(
         text="Lean theorems: a binding whose resolved struct has no static size (any string / dynamic array / optional, at any depth) has no layout, so DBC "
              "generation fails and the C plug-in's verification rejects it; a layout wider than 64 bits is rejected by the DBC writer and by the C "
